@@ -88,6 +88,15 @@ BENIGN = [
         "            self.connection.write_packet(keep_alive_packet)\n",
         "            self.connection.write_packet(keep_alive_packet,\n"
         "                                         force=True)\n")]),
+    ('auth-post-json-kwarg', [('minecraft/authentication.py',
+        "    res = requests.post(server + \"/\" + endpoint, data=json.dumps(data),\n"
+        "                        headers=HEADERS, timeout=15)\n",
+        "    res = requests.post(server + \"/\" + endpoint, json=data,\n"
+        "                        headers=dict(HEADERS), timeout=30)\n")]),
+    ('cipher-two-step-send', [(ENC,
+        "        self.actual_socket.send(self.encryptor.update(data))\n",
+        "        ciphertext = self.encryptor.update(data)\n"
+        "        self.actual_socket.send(ciphertext)\n")]),
     ('exit-lock-explicit-acquire', [(CONN,
         "        with self._write_lock:  # pylint: disable=not-context-manager\n"
         "            self.connected = False\n",
